@@ -437,6 +437,17 @@ func c7Probes(t *c7Tracker, hooked bool, r *vw.Rng) []c7Probe {
 	return out
 }
 
+// c7CrashChoices: the crash states a case may continue on (the media-corruption probe is not a crash state).
+func c7CrashChoices(ps []c7Probe) []c7Probe {
+	var out []c7Probe
+	for _, p := range ps {
+		if p.fv != 3 {
+			out = append(out, p)
+		}
+	}
+	return out
+}
+
 // ---------------------------------------------------------------- fsState cases
 
 var c7Votes = []string{"", "a", "node-1:8080", "x\"y\\z\né", "b"}
@@ -743,7 +754,7 @@ func (e *c7Env) runStateCase(ci int) {
 			if len(e.t.points) < 2 {
 				continue
 			}
-			ps := c7Probes(e.t, e.hooked, r)
+			ps := c7CrashChoices(c7Probes(e.t, e.hooked, r))
 			p := ps[r.Intn(len(ps))]
 			nd, _ := c7Materialise(e.base, p.point, p.mask, p.fv, p.jf, p.junk)
 			os.RemoveAll(dir)
@@ -1249,7 +1260,7 @@ func (e *c7Env) runSnapCase(ci int) {
 		// sometimes: crash inside the operation just executed and restart on what survived; or a plain restart
 		switch c := r.Intn(6); {
 		case c == 0 && len(e.t.points) > 1:
-			ps := c7Probes(e.t, e.hooked, r)
+			ps := c7CrashChoices(c7Probes(e.t, e.hooked, r))
 			p := ps[r.Intn(len(ps))]
 			nd, _ := c7Materialise(e.base, p.point, p.mask, p.fv, p.jf, p.junk)
 			os.RemoveAll(dir)
